@@ -160,10 +160,38 @@ int World::exec_array(const Op &op) {
         if (variant == 1) TRY(x.unit(std::string("")));
         TRY(x.unit(std::string(units[variant])));
     }
-    // everything below works against the model
     DataArray x = arr_at(a[0], a[1]);
     if (!x) return 2;
     std::string id = x.id();
+    if ((op.kind == OP_arr_write_whole || op.kind == OP_arr_append || op.kind == OP_arr_write) && (((unsigned) a[3]) % 24) == 7) {
+        // data of the wrong element type (strings for a numeric array, numbers for a string array) offered through the three write
+        // entry points; needs no model: whatever the array holds, a refusal must leave it as it was, an acceptance is not predicted
+        NDSize ext = x.dataExtent();
+        size_t rank = ext.size();
+        bool is_str = x.dataType() == DataType::String;
+        arg_class = "dtype=" + dtype_name(x.dataType()) + ",rank=" + std::to_string(rank) + ",wrong-eltype,any-array";
+        std::vector<std::string> sv(64, "s"); std::vector<double> dv(64, 1.0);
+        const void *buf = is_str ? (const void *) dv.data() : (const void *) sv.data();
+        DataType mt = is_str ? DataType::Double : DataType::String;
+        try {
+            if (op.kind == OP_arr_write_whole) {
+                if (rank != 1) return 2;
+                size_t k = (size_t) ext[0] + 1 + r.below(3); if (k > 64) k = 64;
+                if (is_str) { dv.resize(k); x.setData(dv); } else { sv.resize(k); x.setData(sv); }
+            } else if (op.kind == OP_arr_append) {
+                if (!rank) return 2;
+                size_t axis = r.below(rank); NDSize c = ext; c[axis] = 1;
+                if (c.nelms() == 0 || c.nelms() > 64) return 2;
+                x.appendData(mt, buf, c, axis);
+            } else {
+                if (!rank || ext.nelms() == 0) return 2;
+                x.setData(mt, buf, NDSize(rank, 1), NDSize(rank, 0));
+            }
+        } catch (const std::exception &) { return 1; }
+        arr.erase(id); dims.erase(id);
+        return 0;
+    }
+    // everything below works against the model
     auto mit = arr.find(id);
     if (mit == arr.end()) return 2;    // array without a model (created by an op whose outcome was not predictable)
     ArrModel &m = mit->second;
@@ -241,6 +269,15 @@ int World::exec_array(const Op &op) {
         WriteData w;
         gen_write(r, m, m.dtype, n, w);
         arg_class += ",whole";
+        if ((((unsigned) a[3]) % 24) == 4) {
+            // a value of the wrong element type (strings for a numeric array and the other way round), of another length than the array
+            size_t k = m.extent[0] + 1 + r.below(3);
+            arg_class += ",wrong-eltype";
+            try { if (m.dtype == DataType::String) { std::vector<double> v(k, 1.0); x.setData(v); } else { std::vector<std::string> v(k, "s"); x.setData(v); } }
+            catch (const std::exception &) { return 1; }
+            arr.erase(id); dims.erase(id);      // accepted: not predicted
+            return 0;
+        }
         try {
             // DataSet::setData(value) = resize to the value's shape, then write everything
             if (m.dtype == DataType::String) x.setData(w.strs);
@@ -365,9 +402,10 @@ int create_array_op(World &w, const Op &op) {
     for (int k = 0; k < 12 && !(mask & (1 << ti)); k++) ti = (ti + 1) % 12;
     DataType dt = kTypes[ti];
     int invalid = ((unsigned) a[5]) % 30;
-    if (invalid == 1) dt = DataType::Nothing; else if (invalid == 2) dt = DataType::Opaque; else if (invalid == 3) dt = DataType::Char; else invalid = 0;
+    if (invalid == 1) dt = DataType::Nothing; else if (invalid == 2) dt = DataType::Opaque; else if (invalid == 3) dt = DataType::Char; else if (invalid != 4) invalid = 0;
     int rank = 1 + ((unsigned) a[3]) % 4;
     if (r.chance(1, 2)) rank = 1;
+    if (invalid == 4) rank = 0;          // a shape without dimensions: nothing can be stored in it
     std::vector<uint64_t> ext((size_t) rank);
     int hi = w.plan.swarm.big ? (rank == 1 ? 3000 : rank == 2 ? 60 : 14) : 6;
     for (auto &e : ext) e = r.chance(1, 10) ? 0 : (uint64_t) r.range(1, hi);
@@ -378,7 +416,7 @@ int create_array_op(World &w, const Op &op) {
     bool dup = b.hasDataArray(name);
     bool badname = name.empty() || name.find('/') != std::string::npos;
     std::string type = w.pick_type(a[1]);
-    w.arg_class = std::string(dup ? "dup" : badname ? "bad-name" : type.empty() ? "empty-type" : invalid ? "bad-dtype" : "fresh") + ",dtype=" + (invalid ? std::to_string((int) dt) : dtype_name(dt));
+    w.arg_class = std::string(dup ? "dup" : badname ? "bad-name" : type.empty() ? "empty-type" : invalid == 4 ? "rank-0-shape" : invalid ? "bad-dtype" : "fresh") + ",dtype=" + ((invalid && invalid != 4) ? std::to_string((int) dt) : dtype_name(dt));
     DataArray x;
     try { x = b.createDataArray(name, type, dt, to_nd(ext), comp); }
     catch (const std::exception &) { return 1; }
